@@ -8,3 +8,10 @@ require (
 )
 
 replace github.com/csgura/fp => /repo
+
+require golang.org/x/tools v0.13.0
+
+require (
+	golang.org/x/mod v0.12.0 // indirect
+	golang.org/x/sys v0.12.0 // indirect
+)
